@@ -397,6 +397,7 @@ func TestC18(t *testing.T) {
 			for i := 0; i < n; i++ {
 				c.Steps = append(c.Steps, c18Step{Op: rapid.SampledFrom(ops).Draw(rt, "op"), Name: rapid.IntRange(0, len(c18Names)-1).Draw(rt, "name"), To: rapid.IntRange(0, len(c18Names)-1).Draw(rt, "to")})
 			}
+			st.SkipShrink(rt, c)
 			f, info := runC18(c)
 			st.Eval()
 			for _, s := range c.Steps {
